@@ -623,13 +623,17 @@ class Interp(ExtMixin):
             raise Unsupported(f"use of stale alias {o!r}")
         if isinstance(o, SymObj):
             if attr in o.attrs:
-                yield st, o.attrs[attr]
+                from .interp_ext import bind_class_attr
+
+                yield st, bind_class_attr(o.attrs[attr], o, None)
                 return
             klass = o.attrs.get("__class__")
             if isinstance(klass, SymObj):
                 # instance of an abstract class object: class attributes, then methods of the python class it models
                 if attr in klass.attrs:
-                    yield st, klass.attrs[attr]
+                    from .interp_ext import bind_class_attr
+
+                    yield st, bind_class_attr(klass.attrs[attr], klass, o)
                     return
                 inst_cls = getattr(klass, "instance_class", None)
                 if inst_cls:
@@ -643,6 +647,15 @@ class Interp(ExtMixin):
                         else:
                             yield st, fv
                         return
+            ic = getattr(o, "instance_class", None)
+            if ic and klass is None:
+                # o is an abstract class object: attributes defined in the python class it models
+                found = self.find_method(ic, attr)
+                if found:
+                    fnode = src.func_node(*found)
+                    decos = src.decorators(fnode)
+                    yield st, FuncVal(found[0], found[1], o if "classmethod" in decos else None)
+                    return
             if attr == "__class__" and klass is None:
                 yield st, ClassVal(o.cls, getattr(self, "class_home", {}).get(o.cls))
                 return
@@ -2153,7 +2166,7 @@ SPEC_BUILTINS = {
     "forall", "exists", "implies", "iff", "ite", "forall_int", "forall_live", "align_up", "pow2", "pymod", "byte",
     "slen", "same_storage", "same_obj",
 }
-PY_BUILTINS = {"bytes", "len", "min", "max", "bool", "int", "range", "enumerate", "zip", "list", "tuple", "isinstance", "sum",
+PY_BUILTINS = {"classmethod", "staticmethod", "bytes", "len", "min", "max", "bool", "int", "range", "enumerate", "zip", "list", "tuple", "isinstance", "sum",
                "str", "type", "hasattr", "getattr", "abs", "dict", "reversed", "all", "any"}
 
 
